@@ -382,6 +382,40 @@ def run(rep, tier, seed):
         interleave(rep, pool, rng)
     for i in range(1 if tier == 'quick' else 20):
         threads(rep, pool, rng)
+    # ---- switching debug logging on must not change any outcome: every pool case and a family of schemas in which an
+    # ANY is among the candidate types at a position (its tag map carries skip types, which only the log code walks)
+    from harness import sexp_types
+    extra = []
+    for ts, vs in [("(seq (o (seq (r int))) (r any))", "(seq (seq (i 5)) (any 0403616263))"),
+                   ("(seq (o (seqof int)) (r any))", "(seq (of (i 1) (i 2)) (any 0101ff))"),
+                   ("(seq (o (str 4)) (r any))", "(seq (s 6162636465666768) (any 0500))"),
+                   ("(seq (o (tag e c 0 any)) (r (seq (r int))))", "(seq (any 020105) (seq (i 7)))"),
+                   ("(seq (o bits) (r any))", "(seq (bits 1010101010101010101) (any 020105))"),
+                   ("(seq (d (i 3) int) (r (tag i c 1 any)) (o (set (r bool))))", "(seq (i 4) (any 6162) (seq (b 1)))")]:
+        try:
+            extra.append(engine.Case(sexp_types.ty_of_sexp(gen.parse_sexps(ts)[0]), gen.val_of_sexp(gen.parse_sexps(vs)[0])))
+        except Exception:  # noqa
+            pass
+    quiet = lambda m: None
+    for c in extra + pool[:120 if tier == 'quick' else 400]:
+        for mode in [('ber', True, 0), ('ber', False, 0), ('ber', True, 3), ('cer', False, 1000), ('der', True, 0)]:
+            e = call('enc', c, c.fresh_obj(), None, mode)
+            if e[0] != 'ok':
+                continue
+            data = bytes.fromhex(e[1])
+            outs = []
+            for logger in (None, debug.Debug('all', printer=quiet), None):
+                debug.setLogger(logger)
+                try:
+                    f = engine.Case(c.t, c.v)
+                    outs.append(call('dec', f, data, f.schema, mode))
+                finally:
+                    debug.setLogger(None)
+            rep.count('logging-invariance')
+            if not (outs[0] == outs[1] == outs[2]):
+                rep.fail('logging-changes-outcome', 'decode gives %s with logging off, %s with logging on, %s off again'
+                         % (str(outs[0])[:120], str(outs[1])[:120], str(outs[2])[:120]),
+                         {'kind': 'logging', 'type': gen.ty_sexp(c.t), 'value': gen.val_sexp(c.v), 'mode': list(mode), 'bytes': e[1]})
     # ---- the same with debug logging switched on
     sink = []
     debug.setLogger(debug.Debug('all', printer=lambda m: sink.append(len(m))))
